@@ -247,7 +247,9 @@ def run(ctx):
                 m = gen_moments(rng)[1]
                 m[rng.randrange(4)] = float("nan")
                 entries.append(("nan", m))
-            elif e > 0 and entries[-1][0] not in ("hard", "nan") and rng.random() < 0.15:
+            elif e > 0 and entries[-1][0] not in ("hard", "nan") and rng.random() < 0.15 \
+                    and math.hypot(entries[-1][1][0], entries[-1][1][1]) < 0.9 and math.hypot(entries[-1][1][2], entries[-1][1][3]) < 0.9:
+                # (only well inside the unit disc: a shift of 0.004 must not push a moment pair out of it)
                 # a near twin of the previous member of the batch (a slowly turning swell: the same moments to two
                 # decimals, different in the third): each member still gets its own distribution
                 cell = [round(v, 2) for v in entries[-1][1]]
